@@ -299,7 +299,8 @@ def _gaussian(spec, ctx):
 
     def fp_fn(m):
         return fpr.gaussian_mv(m, df)
-    json_ok = all(isinstance(c, str) for c in df.columns)     # JSON turns integer column labels into strings
+    # JSON turns integer column labels into strings, and the property speaks of models trained on floating-point data
+    json_ok = all(isinstance(c, str) for c in df.columns) and all(dt.kind == 'f' for dt in df.dtypes)
     done = _roundtrips(ctx, where, model, GaussianMultivariate.from_dict, fp_fn, 'GaussianMultivariate', json_ok,
                        'GaussianMultivariate', generic=Multivariate.from_dict)
     if done:
